@@ -43,7 +43,9 @@ pub fn replay_req(ctx: &ReqCtx, c: &Value, rep: &mut Report) {
     };
     let obs = json!({"hostname": r.hostname, "tp": r.is_third_party, "supported": r.is_supported, "http": r.is_http, "https": r.is_https,
                      "type": format!("{:?}", r.request_type).to_lowercase()});
-    let want = json!({"hostname": e["hostname"], "tp": e["tp"], "supported": e["supported"], "http": e["http"], "https": e["https"], "type": e["type"]});
+    // tp_any: the party of this (url, source) pair is unspecified
+    let tp_want = if e.get("tp_any").and_then(|b| b.as_bool()).unwrap_or(false) { json!(r.is_third_party) } else { e["tp"].clone() };
+    let want = json!({"hostname": e["hostname"], "tp": tp_want, "supported": e["supported"], "http": e["http"], "https": e["https"], "type": e["type"]});
     if obs != want {
         rep.mismatch(json!({"what": "req-fields", "url": url, "src": src, "alias": alias, "observed": obs, "allowed": [want], "devs": []}));
     }
